@@ -207,11 +207,11 @@ func HarnessC19Errors() {
 		verifCSV(in, append([][]string{header}, recs...), -1)
 	case 2: // output exists already
 		verifCSV(in, append([][]string{header}, recs...), -1)
-		verifMakeFile(out, 1+verifChoice("existing", 4)) // empty, arbitrary bytes, bbolt file, dangling symbolic link
+		verifMakeFile(out, 1+verifChoice("existing", 5)) // empty, arbitrary bytes, bbolt file, dangling symbolic link, directory
 	}
 	if kind != 2 && verifBool("output-exists") {
 		// a malformed input AND an existing output: the output must still be left alone
-		verifMakeFile(out, 1+verifChoice("existing", 4)) // empty, arbitrary bytes, bbolt file, dangling symbolic link
+		verifMakeFile(out, 1+verifChoice("existing", 5)) // empty, arbitrary bytes, bbolt file, dangling symbolic link, directory
 	}
 	before := verifFileVersion(out)
 	existed := verifFileKind(out) != 0
